@@ -39,7 +39,7 @@ REQUIRED = [
     ("liquid/builtin/tags/liquid_tag.py", "LiquidTag.parse"),
     ("liquid/environment.py", "Environment.tokenizer"),
 ]
-MIN_COUNTERS = {"rewrites_judged": 500, "rewrites_with_template_comment": 50, "rewrites_with_liquid_tag": 50, "history_pairs": 20, "history_renders_compared": 200,
+MIN_COUNTERS = {"cross_environment_renders": 200, "rewrites_judged": 500, "rewrites_with_template_comment": 50, "rewrites_with_liquid_tag": 50, "history_pairs": 20, "history_renders_compared": 200,
                 "lexer_memo_hits_in_children": 20, "parser_memo_hits_in_children": 20, "implicit_history_pairs": 10, "implicit_renders_compared": 40}
 
 SENT = ["", "", "", "", "", ""]
@@ -105,6 +105,8 @@ def judge_rewrite(ctx: core.Ctx, case: dict[str, Any]) -> None:
         if not o.ok and not o.is_liquid_error:
             ctx.count("non_liquid_error_forwarded_to_C02")
     if o_d.key() == o_c.key():
+        if o_c.ok and "include" not in src_c and not case.get("async") and not _cross_ok(ctx, env_c, src_c, data, o_c.value, ds):
+            return
         ctx.ok((src_d, ds, case["data"]), nontrivial=o_d.ok and bool(o_d.value) and "{%" in src_d)
         return
     # shrink: drop nodes while the two printings still disagree
@@ -121,6 +123,38 @@ def judge_rewrite(ctx: core.Ctx, case: dict[str, Any]) -> None:
         f"default delimiters: {sd!r:.300} -> {a.brief()}; delimiters {ds}: {sc!r:.300} -> {b.brief()}",
         {"default": sd, "custom": sc, "delims": ds},
     )
+
+
+_WRAPPER_ENV: list[Any] = []
+
+
+def _wrapper_env():
+    """A third environment that differs from the template's own in everything a template could pick up from it: default delimiters,
+    lax tolerance, no feature flags, and the most common filters re-registered with a behaviour of its own."""
+    if not _WRAPPER_ENV:
+        e = drv.make_env({"mode": "lax", "delims": DEFAULT})
+        for f in ("upcase", "downcase", "append", "prepend", "size", "join", "default", "first", "last", "plus", "minus", "times", "capitalize", "strip", "split", "replace", "sort", "escape"):
+            e.add_filter(f, lambda *a, **k: "WRAPPER-ENV")
+        _WRAPPER_ENV.append(e)
+    return _WRAPPER_ENV[0]
+
+
+def _cross_ok(ctx: core.Ctx, env_c, src_c: str, data: dict[str, Any], alone: str, ds: list[str]) -> bool:
+    """A template parsed by one environment and handed as render data to a template of another ({% render inner %}) still renders
+    with its own environment's delimiters, flags and filters: the text it produces there is the text it produces on its own."""
+    t = drv.call(env_c.from_string, src_c)
+    if not t.ok:
+        return True
+    w = drv.parse_and_render(_wrapper_env(), "[{% render inner %}]", dict(data, inner=t.value))
+    ctx.count("cross_environment_renders")
+    if w.ok and w.value == "[" + alone + "]":
+        return True
+    ctx.evaluations += 1
+    ctx.violation(
+        "cross-environment-render-differs",
+        f"template {src_c!r:.200} (delimiters {ds}) renders {alone!r:.120} on its own but {w.brief()!r:.200} when another environment's template renders it through {{% render inner %}}",
+    )
+    return False
 
 
 def _walk(nodes: list):
